@@ -103,4 +103,13 @@ def run(ctx):
         others = cs - {own}
         ctx.ob(f"decompile|{t}|own-ident", own in cs and not others, f"{t}::decompile mentions IDENT consts {sorted(c.split(' as ')[0].split('::')[-1] for c in cs)}", f.loc())
     ctx.floor("decompile-impls", n_dec, 35)
+    ctx.rule("T2 alias agreement: the decompiler prints the NonFungibleGlobalId(\"..\") alias only for a tuple whose length was tested == 2 — the "
+             "compiler turns that alias into exactly a 2-field tuple, so aliasing a longer tuple drops fields on the way back")
+    fn_ = [x for x in F.fns if x.endswith("data::formatter::format_manifest_value")]
+    ctx.ob("nf-global-id-alias|anchor", len(fn_) == 1, f"format_manifest_value: {len(fn_)}")
+    for x in fn_[:1]:
+        fb = ctx.body(x)
+        tg = call_blocks(fb, r"NonFungibleGlobalId::new$")
+        check_guarded(ctx, "nf-global-id-alias|only-for-2-tuples", fb, tg, [G_bin("Eq", [r"::len$"], [r"^const:2$"], "fields.len() == 2", True)],
+                      "construction of the NonFungibleGlobalId alias", min_targets=1)
     ctx.assume("value formatting / parsing round-trip for arbitrary argument values, and alias argument re-mapping, are value-level and not decided")
